@@ -40,7 +40,9 @@ ITEM_HARNESS = {
     'utils::find_common_prefix_of_sorted_vec': ['relpath'], 'utils::make_relative_path': ['relpath'], 'detector::SourceMapRef::get_url': ['discover'], 'detector::SourceMapRef::get_embedded_sourcemap': ['discover'], 'detector::is_sourcemap_common': ['discover', 'header'], 'detector::locate_sourcemap_reference': ['discover'], 'detector::locate_sourcemap_reference_slice': ['discover'],
     'sourceview::SourceView::new': ['sourceview'], 'sourceview::SourceView::get_line': ['sourceview'], 'sourceview::SourceView::line_count': ['sourceview'], 'sourceview::SourceView::lines': ['sourceview'],
     'sourceview::Lines::next': ['sourceview'], 'sourceview::SourceView::get_line_slice': ['sourceview'], 'sourceview::SourceView::get_line_slice__body': ['sourceview'],
-    'sourceview::SourceView': ['sourceview'], 'sourceview::Lines': ['sourceview'],
+    'sourceview::SourceView': ['sourceview'], 'sourceview::Lines': ['sourceview'], 'sourceview::SourceView::from_string': ['sourceview'], 'sourceview::SourceView::clone': ['sourceview'],
+    'sourceview::SourceView::get_original_function_name': ['function_name'], 'sourceview::SourceView::rev_token_iter': ['function_name'], 'sourceview::RevTokenIter::next': ['function_name'], 'sourceview::RevTokenIter': ['function_name'],
+    'js_identifiers::is_valid_start': ['function_name'], 'js_identifiers::is_valid_continue': ['function_name'], 'js_identifiers::strip_identifier': ['function_name'], 'js_identifiers::is_valid_javascript_identifier': ['function_name'], 'js_identifiers::get_javascript_token': ['function_name'],
     'decoder::decode_common': ['decode_document'], 'decoder::decode_index': ['index_flatten', 'decode_document'],
 }
 # property -> stand-ins that run on every check (parts of the property outside the verifier's reach so far)
